@@ -351,9 +351,14 @@ class StepMonitor:
         for p, (cid, ackstep, aop) in self.acked.items():
             others = [o for o in run.history if o is not aop and o.path == p and o.kind in ("Put", "Delete") and o.call is not None and o.call <= now and (o.reply is None or o.ret >= aop.call)]
             others = [o for o in others if o.reply is None or (o.reply.get("committed") or o.reply.get("deleted")) or o.reply.get("kind") == "Error"]
-            if others:
-                continue
             cur = tree.get(p, (None,))[0]
+            if others:
+                # a replacement may be under way: the path then holds the acknowledged bytes or the complete bytes of
+                # one of the replacing writes (or nothing, for a delete) - never something in between
+                allowed = {cid} | {ident(run.contents[o.content]) for o in others if o.kind == "Put" and not o.extra.get("bad")} | ({None} if any(o.kind == "Delete" for o in others) else set())
+                if cur not in allowed and not any(o.extra.get("bad") for o in others):
+                    self.viol.append(("%s|acknowledged-content-altered-while-being-replaced" % self.prop, {"path": p, "step": now, "op": aop.brief(), "live_now": cur}))
+                continue
             if cur != cid:
                 self.viol.append(("%s|acknowledged-content-not-live" % self.prop, {"path": p, "step": now, "op": aop.brief(), "live_now": cur}))
 
@@ -727,6 +732,7 @@ def _c10_worker(args):
             pass
         mon = StepMonitor("C10")
         run = HubRun(wd, n, programs, contents, initial, strat, rng, on_step=mon, b3=b3)
+        run.plant_staging = mode in ("pct", "random") and rng.chance(1, 4)
         if mode in ("pct", "random", "twinput") and rng.chance(1, 4):
             run.root_alias = {i: rng.pick(["", "/.", "//", "/./"]) for i in range(n)}
         if badkind or mode == "twinput":
@@ -1082,8 +1088,15 @@ def _c11_worker(args):
                 path = gen_probe_sharing_prefix(rng)
             cnt("sessions_with_accepted_requests_before_the_probe")
         ctl_out_calls, ctl_reps, ctl_tree = ctls[nw]
+        rootspell = None
+        if not exhaustive and idx % 7 == 3:
+            # an absolute path that spells the served directory itself (joined to the root it comes out "inside")
+            rootspell = rng.pick(["/seed.txt", "/dir/f", "/planted.txt", "/newdir/sub/f", "//seed.txt", "/./dir/f", "/../ROOT/seed.txt", ""])
+            cnt("probes_spelling_the_served_root")
         for kind in ("Get", "Put", "Delete"):
             sent, root, home = fresh()
+            if rootspell is not None:
+                path = rng.pick([root, root, os.path.join(os.path.dirname(root), "ROOT"), root.replace("/", "//", 1)]) + rootspell
             s0 = snapshot(sent)
             s0 = {k: v for k, v in s0.items() if not k.startswith("ROOT/")}
             def mk(pth):
@@ -1597,8 +1610,8 @@ def c12(tier):
     rmtree(wroot)
     from common import VARIANT
     if not VARIANT:
-        r.merge_vh(run_vh("c12", tier, cases=300000 if th else 20000), "twin-release:")
-        r.merge_vh(run_vh("c12", tier, profile="debug", cases=60000 if th else 4000, sd=seed() + 1000003), "twin-debug:")
+        r.merge_vh(run_vh("c12", tier, cases=300000 if th else 20000, alloc_abort="C12|read_frame|single-allocation-request-above-1GiB-aborted-the-process"), "twin-release:")
+        r.merge_vh(run_vh("c12", tier, profile="debug", cases=60000 if th else 4000, sd=seed() + 1000003, alloc_abort="C12|read_frame|single-allocation-request-above-1GiB-aborted-the-process"), "twin-debug:")
     if th:
         from libchecks import fuzz_stage, miri_stage
         miri_stage(r, "c12", "C12")
